@@ -144,3 +144,34 @@ Example C05_suspended_example :
       (g_hc (g_run V2 [GAttach [0] true; GArrive (mkInc 0 [0; 1; 7] true 1 true 0) true; GAttach [0; 1] false;
                        GArrive (mkInc 1 [0; 1; 7] true 1 true 3) false; GVerdict 0 3])) = [(0, 0)].
 Proof. vm_compute. reflexivity. Qed.
+
+(* VALIDATOR OUTCOMES.  A validator that is consulted accepts, rejects, or terminates with an exception (a certificate
+   fetch that timed out / was nacked, a face that went down).  Only the first is an acceptance: the histories give a
+   validator that rejected OR RAISED a non-passing verdict (V2: FAIL, TIMEOUT, SILENCE, 5 = raised; V1: 0).  For EVERY
+   history: an Interest whose validator did not accept reaches a handler only if no application validator had to accept
+   it - it is plain, or (legacy) it is unsigned, or its DigestSha256 signature satisfied the library default
+   sha256_digest_checker on a route without a validator of its own. *)
+Theorem C05_no_accept_no_delivery (fe : frontend) (h : list (tie * ev)) (hd : N) (k : inc) :
+  In (hd, k) (hcalls (run_hist fe h)) -> pass fe (k_verdict k) = false ->
+  plain k = true \/ (fe = V1 /\ k_digest_ok k = true /\ (signed k = false \/ (k_sig k =? 2) = false)).
+Proof. exact (interest_no_accept fe h hd k). Qed.
+Print Assumptions C05_no_accept_no_delivery.
+
+(* ... also when the validator suspended and the routes changed meanwhile ([k] carries the verdict it finally got) *)
+Theorem C05_suspended_no_accept_no_delivery (fe : frontend) (evs : list gev) (h : N) (k : inc) :
+  In (h, k) (g_hc (g_run fe evs)) -> pass fe (k_verdict k) = false ->
+  plain k = true \/
+  (fe = V1 /\ k_digest_ok k = true /\
+   (signed k = false \/ ((k_sig k =? 2) = false /\ exists p, In (h, (p, false)) (g_att (g_run fe evs))))).
+Proof. exact (suspended_no_accept fe evs h k). Qed.
+Print Assumptions C05_suspended_no_accept_no_delivery.
+
+(* a signed Interest on a route with a validator; the validator raises (verdict 5 in V2, 0 in V1) at once (Interest 0) or
+   after a suspension (Interest 1): no handler call in either front-end; Interest 2 is accepted *)
+Example C05_raising_validator_example :
+  g_hc (g_run V2 [GAttach [0] true; GArrive (mkInc 0 [0; 1] false 1 true 5) false; GArrive (mkInc 1 [0; 1] false 1 true 0) true;
+                  GVerdict 1 5]) = [] /\
+  map (fun x : N * inc => (fst x, k_id (snd x)))
+      (g_hc (g_run V1 [GAttach [0] true; GArrive (mkInc 0 [0; 1] false 1 true 0) false; GArrive (mkInc 1 [0; 1] false 1 true 0) true;
+                       GVerdict 1 0; GArrive (mkInc 2 [0; 1] false 1 true 1) false])) = [(0, 2)].
+Proof. split; vm_compute; reflexivity. Qed.
